@@ -10,6 +10,7 @@
 #include "harness/busworld.h"
 #include "kernel/kernel.h"
 #include "model/busmodel.h"
+#include "model/policy.h"
 
 namespace checks {
 
@@ -34,6 +35,8 @@ class Exec {
   std::vector<bool> fdpass_req;
   std::vector<bm::Choice> pending_choices;
   uint64_t token = 0;
+  struct CallRec { int from; uint32_t serial; std::string dest; };
+  std::vector<CallRec> all_calls;
   bool oom_retry_possible = false;
 
   int pick(int a) const;
@@ -49,6 +52,12 @@ class Exec {
   void after_event();
   void resolve_choices();
   void check_limits_whitebox();
+  bool have_policy = false;
+  pol::Policy policy;
+  std::vector<pol::Who> whos;
+  std::vector<std::vector<const pol::Rule *>> rules_of;   // effective rules per connection
+  std::vector<std::string> names_of(int c);               // names connection c holds (any queue position) + unique name
+  void install_policy_hooks();
   std::string known_validator_gap(const std::string &bytes, const std::string &reason);
   bool tainted = false;            // a listed finding made the model lose track: no further comparisons in this run
   bw::BusLimits lim_cfg;
